@@ -244,7 +244,7 @@ func init() {
 			}
 			writes, others := 0, 0
 			for _, fi := range c.all {
-				ast.Inspect(fi.Decl, func(nd ast.Node) bool {
+				fi.inspect(fi.Decl.Body, func(nd ast.Node) bool {
 					switch n := nd.(type) {
 					case *ast.AssignStmt:
 						for i, l := range n.Lhs {
